@@ -454,7 +454,7 @@ def run(chk, repo):
     chk.decide(ok, "C07.product", W("Poly.__mul__"), "%s ; else %s" % (short(br.body[0]), short(br.orelse[0])),
                why="x^k1 * x^k2 must land on key k1 + k2 with coefficient v1 * v2, added to what is already there", node=br)
     srcs = sorted(unparse(l.iter) for l in loops)
-    chk.decide(srcs == ["thubbed_other", "thubbed_self"], "C07.product", W("Poly.__mul__"),
+    chk.decide(len(set(srcs)) == 2, "C07.product", W("Poly.__mul__"),
                "every term of self meets every term of other: loops over %s" % srcs,
                why="product must range over all pairs of terms", node=mul)
     # what the two loops range over: every (power, coefficient) of each operand, the coefficient behind a hub
